@@ -397,7 +397,12 @@ func (g *fastGenerator) fieldItem(field *protogen.Field, fieldname string, messa
 		if oneof {
 			buf := `dAtA[iNdEx:postIndex]`
 			msgname := g.noStarOrSliceType(field)
-			g.P(`v := &`, msgname, `{}`)
+			g.P(`var v *`, msgname)
+			g.P(`if o, ok := x.`, fieldname, `.(*`, field.GoIdent, `); ok && o != nil && o.`, field.GoName, ` != nil {`)
+			g.P(`v = o.`, field.GoName)
+			g.P(`} else {`)
+			g.P(`v = &`, msgname, `{}`)
+			g.P(`}`)
 			g.decodeMessage("v", buf, field.Message)
 			g.P(`x.`, fieldname, ` = &`, field.GoIdent, `{v}`)
 
@@ -626,10 +631,13 @@ func (g *fastGenerator) unmarshalMapField(varName string, field *protogen.Field)
 		g.decodeFixed32(varName+"temp", "uint32")
 		g.P(varName, ` = `, g.Ident("math", "Float32frombits"), `(`, varName, `temp)`)
 	case protoreflect.Int64Kind:
+		g.P(varName, ` = 0`)
 		g.decodeVarint(varName, "int64")
 	case protoreflect.Uint64Kind:
+		g.P(varName, ` = 0`)
 		g.decodeVarint(varName, "uint64")
 	case protoreflect.Int32Kind:
+		g.P(varName, ` = 0`)
 		g.decodeVarint(varName, "int32")
 	case protoreflect.Fixed64Kind:
 		g.decodeFixed64(varName, "uint64")
@@ -669,7 +677,9 @@ func (g *fastGenerator) unmarshalMapField(varName string, field *protogen.Field)
 		g.P(`return `, protoifacePkg.Ident("UnmarshalOutput"), "{NoUnkeyedLiterals: input.NoUnkeyedLiterals, Flags: input.Flags},", g.Ident("io", `ErrUnexpectedEOF`))
 		g.P(`}`)
 		buf := `dAtA[iNdEx:postmsgIndex]`
+		g.P(`if `, varName, ` == nil {`)
 		g.P(varName, ` = &`, g.noStarOrSliceType(field), `{}`)
+		g.P(`}`)
 		g.decodeMessage(varName, buf, field.Message)
 		g.P(`iNdEx = postmsgIndex`)
 	case protoreflect.BytesKind:
@@ -690,9 +700,11 @@ func (g *fastGenerator) unmarshalMapField(varName string, field *protogen.Field)
 		g.P(`copy(`, varName, `, dAtA[iNdEx:postbytesIndex])`)
 		g.P(`iNdEx = postbytesIndex`)
 	case protoreflect.Uint32Kind:
+		g.P(varName, ` = 0`)
 		g.decodeVarint(varName, "uint32")
 	case protoreflect.EnumKind:
 		goTypV, _ := g.FieldGoType(field)
+		g.P(varName, ` = 0`)
 		g.decodeVarint(varName, goTypV)
 	case protoreflect.Sfixed32Kind:
 		g.decodeFixed32(varName, "int32")
